@@ -494,7 +494,15 @@ impl FixedMethod {
                         continue;
                     }
                     break;
+                } else {
+                    // Any other character (ZWJ, ZWNJ, punctuation etc.) is not a part of the conjunct.
+                    break;
                 }
+            }
+
+            // A Hasanta without a consonant before it joins nothing, so it is not a part of the conjunct.
+            if hasanta {
+                step -= 1;
             }
 
             let temp: String = self.buffer.chars().skip(len - step).collect();
